@@ -226,3 +226,8 @@ def check(run: Run) -> None:
     from .c02 import SPEC_CONVOLUTE, _spec_equal
 
     _spec_equal(Relabel(run, "C14.R1"), ctx, m, m.find_func("convolute", in_module="func_adl.ast.function_simplifier"), SPEC_CONVOLUTE, "func_adl.ast.function_simplifier", None, "C14.R1")
+    # a projection is left in place only for selectors that are not plain constants: the guards of the handlers (C18.R1/R2)
+    run.rule("C14.R6", "projection handlers refuse exactly the non-constant / negative / out-of-kind selectors (C18.R1, C18.R2 re-evaluated): a constant key such as 0 or '' is a key")
+    from ..report import run_stage
+
+    run_stage(run, "c18", only={"C18.R1", "C18.R2"})
